@@ -66,6 +66,21 @@ pub open spec fn pm_view(p: PassMode) -> PMV {
         PassMode::Indirect(s) => PMV::Indirect(s),
     }
 }
+/// "The size of each argument gets rounded up to eightbytes ... If the size of an object is
+/// larger than [two] eightbytes ... it has class MEMORY" (vector classes do not occur): the
+/// classes of the eightbytes of a type that travels in registers
+pub open spec fn classify_spec(ty: Ty) -> Option<Seq<Class>> {
+    if tsize(ty) <= 16 { Some(Seq::new(8, |k: int| eb_class(ty, 0, k))) } else { None }
+}
+/// domain condition: no eightbyte of a small aggregate is pure padding (true of every C
+/// layout: each eightbyte below the size holds a field; not proved here)
+pub open spec fn no_padding_eightbyte(ty: Ty) -> bool {
+    tsize(ty) >= 1 && eb_class(ty, 0, 0) != Class::NoClass && (tsize(ty) > 8 ==> eb_class(ty, 0, 1) != Class::NoClass)
+}
+/// what classify_arg needs to know about a type
+pub open spec fn classifiable(ty: Ty) -> bool {
+    lk(ty) && (tsize(ty) <= 63 || tsize(ty) > 64) && (ty_is_aggregate(ty) && tsize(ty) <= 16 ==> no_padding_eightbyte(ty))
+}
 /// what fn_ty_to_abi relies on about a classification (established by classify_arg)
 pub open spec fn classes_ok(ty: Ty, cls: Seq<Class>) -> bool {
     &&& cls.len() == 8
@@ -133,3 +148,337 @@ pub open spec fn args_match(v: Seq<(PassMode, u16)>, p: Seq<(PMV, u16)>) -> bool
     v.len() == p.len() && forall|j: int| 0 <= j < v.len() ==> pm_view(#[trigger] v[j].0) == p[j].0 && v[j].1 == p[j].1
 }
 pub open spec fn ret_view(r: Option<PassMode>) -> Option<PMV> { match r { Some(m) => Some(pm_view(m)), None => None } }
+
+// ---- classification of the eightbytes of a type: psABI 3.2.3 "Classification" ---------------
+/// "Arguments of types (signed and unsigned) _Bool, char, short, int, long, long long, and
+/// pointers are in the INTEGER class."  (capy: type ids, strings = pointers, function values)
+pub open spec fn int_scalar(ty: Ty) -> bool {
+    match ty {
+        Ty::Type => true, Ty::String => true, Ty::Char => true, Ty::IInt(_) => true, Ty::UInt(_) => true, Ty::Bool => true,
+        Ty::Pointer { .. } => true, Ty::RawPtr { .. } => true, Ty::ConcreteFunction { .. } => true, Ty::File(_) => true,
+        _ => false,
+    }
+}
+/// a scalar of class c placed at byte `off`: the eightbyte that holds its first byte, and the
+/// next one when it is wider than 8 bytes (scalars are aligned to min(size, 8) -- C17 -- so
+/// these are exactly the eightbytes it overlaps)
+pub open spec fn leaf(c: Class, off: int, size: nat, k: int) -> Class {
+    if k == off / 8 || (size > 8 && k == off / 8 + 1) { c } else { Class::NoClass }
+}
+pub open spec fn tag_class(ty: Ty, off: int, k: int) -> Class {
+    if k == (off + tenum(ty).discriminant_offset) / 8 { Class::Int } else { Class::NoClass }
+}
+/// "Each field of an object is classified recursively so that always two fields are
+/// considered.  The resulting class is calculated according to the classes of the fields in
+/// the eightbyte": the class that `ty`, placed at byte `off`, contributes to eightbyte `k`
+#[verifier::opaque]
+pub open spec fn eb_class(ty: Ty, off: int, k: int) -> Class decreases ty, 1nat, 0nat {
+    if int_scalar(ty) { leaf(Class::Int, off, tsize(ty), k) } else {
+    match ty {
+        // "Arguments of types float, double ... are in class SSE."
+        Ty::Float(_) => leaf(Class::Sse, off, 0, k),
+        Ty::ConcreteArray { size, sub_ty } => eb_parts(ty, size as nat, off, k),
+        Ty::AnonArray { size, sub_ty } => eb_parts(ty, size as nat, off, k),
+        // two words: pointer and length / type id and pointer
+        Ty::Slice { .. } => leaf(Class::Int, off, 16, k),
+        Ty::RawSlice => leaf(Class::Int, off, 16, k),
+        Ty::Any => leaf(Class::Int, off, 16, k),
+        Ty::Distinct { sub_ty, .. } => eb_class(*sub_ty.0, off, k),
+        Ty::EnumVariant { sub_ty, .. } => eb_class(*sub_ty.0, off, k),
+        Ty::ConcreteStruct { members, .. } => eb_parts(ty, members@.len(), off, k),
+        Ty::AnonStruct { members } => eb_parts(ty, members@.len(), off, k),
+        // a union of the payloads, plus the tag byte
+        Ty::Enum { variants, .. } => psabi_merge(eb_parts(ty, variants@.len(), off, k), tag_class(ty, off, k)),
+        Ty::ErrorUnion { error_ty, payload_ty } =>
+            psabi_merge(psabi_merge(eb_class(*payload_ty.0, off, k), eb_class(*error_ty.0, off, k)), tag_class(ty, off, k)),
+        Ty::Optional { sub_ty } =>
+            if has_enum_layout(ty) { psabi_merge(eb_class(*sub_ty.0, off, k), tag_class(ty, off, k)) }
+            else { leaf(Class::Int, off, tsize(ty), k) },
+        _ => Class::NoClass,
+    } }
+}
+/// the first n elements / fields / variants of `ty` merged
+#[verifier::opaque]
+pub open spec fn eb_parts(ty: Ty, n: nat, off: int, k: int) -> Class decreases ty, 0nat, n {
+    if n == 0 { Class::NoClass } else {
+        psabi_merge(eb_parts(ty, (n - 1) as nat, off, k), match ty {
+            Ty::ConcreteArray { size, sub_ty } => eb_class(*sub_ty.0, off + (n - 1) * stride_of(*sub_ty.0), k),
+            Ty::AnonArray { size, sub_ty } => eb_class(*sub_ty.0, off + (n - 1) * stride_of(*sub_ty.0), k),
+            Ty::ConcreteStruct { members, .. } => if n - 1 < members@.len() { eb_class(*members@[n - 1].ty.0, off + tstruct(ty).offsets[n - 1], k) } else { Class::NoClass },
+            Ty::AnonStruct { members } => if n - 1 < members@.len() { eb_class(*members@[n - 1].ty.0, off + tstruct(ty).offsets[n - 1], k) } else { Class::NoClass },
+            Ty::Enum { variants, .. } => if n - 1 < variants@.len() { eb_class(*variants@[n - 1].0, off, k) } else { Class::NoClass },
+            _ => Class::NoClass,
+        })
+    }
+}
+/// the layout tables know the type and every type inside it (calc_single computes the parts
+/// before the whole)
+#[verifier::opaque]
+pub open spec fn lk(ty: Ty) -> bool decreases ty, 1nat, 0nat {
+    &&& entry_ok(ty)
+    &&& match ty {
+        Ty::ConcreteArray { size, sub_ty } => lk(*sub_ty.0),
+        Ty::AnonArray { size, sub_ty } => lk(*sub_ty.0),
+        Ty::Distinct { sub_ty, .. } => lk(*sub_ty.0),
+        Ty::EnumVariant { sub_ty, .. } => lk(*sub_ty.0),
+        Ty::ConcreteStruct { members, .. } => lk_parts(ty, members@.len()),
+        Ty::AnonStruct { members } => lk_parts(ty, members@.len()),
+        Ty::Enum { variants, .. } => lk_parts(ty, variants@.len()),
+        Ty::ErrorUnion { error_ty, payload_ty } => lk(*error_ty.0) && lk(*payload_ty.0),
+        Ty::Optional { sub_ty } => lk(*sub_ty.0),
+        _ => true,
+    }
+}
+#[verifier::opaque]
+pub open spec fn lk_parts(ty: Ty, n: nat) -> bool decreases ty, 0nat, n {
+    if n == 0 { true } else {
+        lk_parts(ty, (n - 1) as nat) && match ty {
+            Ty::ConcreteStruct { members, .. } => n - 1 < members@.len() ==> lk(*members@[n - 1].ty.0),
+            Ty::AnonStruct { members } => n - 1 < members@.len() ==> lk(*members@[n - 1].ty.0),
+            Ty::Enum { variants, .. } => n - 1 < variants@.len() ==> lk(*variants@[n - 1].0),
+            _ => true,
+        }
+    }
+}
+
+// ---- unfolding lemmas: one per arm of classify_eight_byte ------------------------------------
+// (eb_class / eb_parts / lk / lk_parts are opaque; the exec proof sees only these facts.  The
+// `forall a` forms are stated left-nested, the way the code accumulates into `classes`.)
+pub proof fn lemma_cls_scalar(ty: Ty, off: int)
+    requires int_scalar(ty)
+    ensures forall|k: int| #[trigger] eb_class(ty, off, k) == leaf(Class::Int, off, tsize(ty), k)
+{ reveal_with_fuel(eb_class, 2); reveal_with_fuel(eb_parts, 2); }
+pub proof fn lemma_cls_float(ty: Ty, off: int)
+    requires ty is Float
+    ensures forall|k: int| #[trigger] eb_class(ty, off, k) == leaf(Class::Sse, off, 0, k)
+{ reveal_with_fuel(eb_class, 2); reveal_with_fuel(eb_parts, 2); }
+pub proof fn lemma_cls_two_words(ty: Ty, off: int)
+    requires ty is Slice || ty is RawSlice || ty is Any, lk(ty), ptr_bytes() == 8
+    ensures forall|k: int| #[trigger] eb_class(ty, off, k) == leaf(Class::Int, off, 16, k), tsize(ty) == 16
+{ reveal_with_fuel(eb_class, 2); reveal_with_fuel(eb_parts, 2); reveal_with_fuel(lk, 2); reveal_with_fuel(lk_parts, 2); }
+pub open spec fn wrapped(ty: Ty) -> Option<Ty> {
+    match ty { Ty::Distinct { sub_ty, .. } => Some(*sub_ty.0), Ty::EnumVariant { sub_ty, .. } => Some(*sub_ty.0), _ => None }
+}
+pub proof fn lemma_cls_wrapper(ty: Ty, off: int)
+    requires wrapped(ty) is Some, lk(ty)
+    ensures forall|k: int| #[trigger] eb_class(ty, off, k) == eb_class(wrapped(ty)->0, off, k),
+        lk(wrapped(ty)->0), tsize(ty) == tsize(wrapped(ty)->0)
+{ reveal_with_fuel(eb_class, 2); reveal_with_fuel(eb_parts, 2); reveal_with_fuel(lk, 2); reveal_with_fuel(lk_parts, 2); }
+pub open spec fn arr_parts(ty: Ty) -> Option<(nat, Ty)> {
+    match ty { Ty::ConcreteArray { size, sub_ty } => Some((size as nat, *sub_ty.0)), Ty::AnonArray { size, sub_ty } => Some((size as nat, *sub_ty.0)), _ => None }
+}
+pub open spec fn arr_n(ty: Ty) -> nat { (arr_parts(ty)->0).0 }
+pub open spec fn arr_sub(ty: Ty) -> Ty { (arr_parts(ty)->0).1 }
+pub proof fn lemma_cls_array(ty: Ty, off: int)
+    requires arr_parts(ty) is Some, lk(ty)
+    ensures
+        forall|k: int| #[trigger] eb_class(ty, off, k) == eb_parts(ty, arr_n(ty), off, k),
+        forall|k: int| #[trigger] eb_parts(ty, 0, off, k) == Class::NoClass,
+        lk(arr_sub(ty)), tsize(ty) == arr_n(ty) * stride_of(arr_sub(ty)),
+        tsize(arr_sub(ty)) <= stride_of(arr_sub(ty)),
+{ reveal_with_fuel(eb_class, 2); reveal_with_fuel(eb_parts, 2); reveal_with_fuel(lk, 2); reveal_with_fuel(lk_parts, 2); }
+pub proof fn lemma_cls_array_step(ty: Ty, off: int, idx: nat)
+    requires arr_parts(ty) is Some, idx < arr_n(ty)
+    ensures
+        forall|k: int| #[trigger] eb_parts(ty, (idx + 1) as nat, off, k)
+            == psabi_merge(eb_parts(ty, idx, off, k), eb_class(arr_sub(ty), off + idx * stride_of(arr_sub(ty)), k)),
+        (idx + 1) * stride_of(arr_sub(ty)) <= arr_n(ty) * stride_of(arr_sub(ty)),
+        idx * stride_of(arr_sub(ty)) + stride_of(arr_sub(ty)) == (idx + 1) * stride_of(arr_sub(ty)),
+{
+    reveal_with_fuel(eb_class, 2); reveal_with_fuel(eb_parts, 2);
+    let st = stride_of(arr_sub(ty)); let n = arr_n(ty);
+    assert((idx + 1) * st <= n * st) by (nonlinear_arith) requires idx + 1 <= n, st >= 0;
+    assert(idx * st + st == (idx + 1) * st) by (nonlinear_arith);
+    assert forall|k: int| #[trigger] eb_parts(ty, (idx + 1) as nat, off, k)
+            == psabi_merge(eb_parts(ty, idx, off, k), eb_class(arr_sub(ty), off + idx * st, k)) by {
+        assert(((idx + 1) as nat - 1) as nat == idx);
+        assert(((idx + 1) as nat - 1) * st == idx * st);
+        match ty {
+            Ty::ConcreteArray { size, sub_ty } => { assert(arr_sub(ty) == *sub_ty.0); }
+            Ty::AnonArray { size, sub_ty } => { assert(arr_sub(ty) == *sub_ty.0); }
+            _ => {}
+        }
+    }
+}
+pub proof fn lemma_cls_struct(ty: Ty, off: int)
+    requires is_struct_ty(ty), lk(ty)
+    ensures
+        forall|k: int| #[trigger] eb_class(ty, off, k) == eb_parts(ty, members_of(ty).len(), off, k),
+        forall|k: int| #[trigger] eb_parts(ty, 0, off, k) == Class::NoClass,
+        tstruct(ty).offsets.len() == members_of(ty).len(), tsize(ty) == tstruct(ty).size,
+{ reveal_with_fuel(eb_class, 2); reveal_with_fuel(eb_parts, 2); reveal_with_fuel(lk, 2); reveal_with_fuel(lk_parts, 2); }
+pub proof fn lemma_lk_part(ty: Ty, n: nat, i: int)
+    requires lk_parts(ty, n), 0 <= i < n
+    ensures lk_parts(ty, (i + 1) as nat)
+    decreases n
+{
+    reveal_with_fuel(lk, 2); reveal_with_fuel(lk_parts, 2);
+    if i + 1 < n { lemma_lk_part(ty, (n - 1) as nat, i); }
+}
+pub proof fn lemma_struct_member(ty: Ty, i: int)
+    requires is_struct_ty(ty), lk(ty), 0 <= i < members_of(ty).len()
+    ensures lk(*members_of(ty)[i].ty.0), tstruct(ty).offsets[i] + tsize(*members_of(ty)[i].ty.0) <= tsize(ty),
+{
+    reveal_with_fuel(lk, 2); reveal_with_fuel(lk_parts, 2);
+    lemma_lk_part(ty, members_of(ty).len(), i);
+    assert(field_tys(ty)[i] == *members_of(ty)[i].ty.0);
+}
+pub proof fn lemma_cls_struct_step(ty: Ty, off: int, i: int)
+    requires is_struct_ty(ty), lk(ty), 0 <= i < members_of(ty).len()
+    ensures
+        forall|k: int| #[trigger] eb_parts(ty, (i + 1) as nat, off, k)
+            == psabi_merge(eb_parts(ty, i as nat, off, k), eb_class(*members_of(ty)[i].ty.0, off + tstruct(ty).offsets[i], k)),
+        lk(*members_of(ty)[i].ty.0),
+        tstruct(ty).offsets[i] + tsize(*members_of(ty)[i].ty.0) <= tsize(ty),
+{
+    lemma_struct_member(ty, i);
+    reveal_with_fuel(eb_class, 2); reveal_with_fuel(eb_parts, 2);
+    assert forall|k: int| #[trigger] eb_parts(ty, (i + 1) as nat, off, k)
+            == psabi_merge(eb_parts(ty, i as nat, off, k), eb_class(*members_of(ty)[i].ty.0, off + tstruct(ty).offsets[i], k)) by {
+        assert(((i + 1) as nat - 1) as nat == i as nat);
+    }
+}
+pub open spec fn variants_of(ty: Ty) -> Seq<Intern<Ty>> { match ty { Ty::Enum { variants, .. } => variants@, _ => Seq::empty() } }
+pub proof fn lemma_cls_enum(ty: Ty, off: int)
+    requires ty is Enum, lk(ty)
+    ensures
+        forall|k: int| #[trigger] eb_class(ty, off, k) == psabi_merge(eb_parts(ty, variants_of(ty).len(), off, k), tag_class(ty, off, k)),
+        forall|k: int| #[trigger] eb_parts(ty, 0, off, k) == Class::NoClass,
+        tenum(ty).discriminant_offset + 1 == tsize(ty),
+{
+    reveal_with_fuel(eb_class, 2); reveal_with_fuel(eb_parts, 2); reveal_with_fuel(lk, 2); reveal_with_fuel(lk_parts, 2);
+}
+pub proof fn lemma_enum_variant(ty: Ty, i: int)
+    requires ty is Enum, lk(ty), 0 <= i < variants_of(ty).len()
+    ensures lk(*variants_of(ty)[i].0), tsize(*variants_of(ty)[i].0) <= tenum(ty).discriminant_offset,
+{
+    reveal_with_fuel(lk, 2); reveal_with_fuel(lk_parts, 2);
+    lemma_lk_part(ty, variants_of(ty).len(), i);
+    assert(payloads_of(ty)[i] == *variants_of(ty)[i].0);
+}
+pub proof fn lemma_cls_enum_step(ty: Ty, off: int, i: int)
+    requires ty is Enum, lk(ty), 0 <= i < variants_of(ty).len()
+    ensures
+        forall|k: int| #[trigger] eb_parts(ty, (i + 1) as nat, off, k)
+            == psabi_merge(eb_parts(ty, i as nat, off, k), eb_class(*variants_of(ty)[i].0, off, k)),
+        lk(*variants_of(ty)[i].0),
+        tsize(*variants_of(ty)[i].0) <= tenum(ty).discriminant_offset,
+{
+    lemma_enum_variant(ty, i);
+    reveal_with_fuel(eb_class, 2); reveal_with_fuel(eb_parts, 2);
+    assert forall|k: int| #[trigger] eb_parts(ty, (i + 1) as nat, off, k)
+            == psabi_merge(eb_parts(ty, i as nat, off, k), eb_class(*variants_of(ty)[i].0, off, k)) by {
+        assert(((i + 1) as nat - 1) as nat == i as nat);
+    }
+}
+pub proof fn lemma_eu_layout(ty: Ty)
+    requires ty is ErrorUnion, lk(ty)
+    ensures
+        lk(*ty->ErrorUnion_payload_ty.0), lk(*ty->ErrorUnion_error_ty.0),
+        tsize(*ty->ErrorUnion_payload_ty.0) <= tenum(ty).discriminant_offset, tsize(*ty->ErrorUnion_error_ty.0) <= tenum(ty).discriminant_offset,
+        tenum(ty).discriminant_offset + 1 == tsize(ty),
+{
+    reveal_with_fuel(lk, 2); reveal_with_fuel(lk_parts, 2);
+    assert(entry_ok(ty));
+    assert(size_ok(ty, tsize(ty)));
+    assert(enum_layout_ok(ty, tenum(ty)));
+    assert(payloads_of(ty).len() == 2);
+    assert(payloads_of(ty)[0] == *ty->ErrorUnion_error_ty.0 && payloads_of(ty)[1] == *ty->ErrorUnion_payload_ty.0);
+    assert(tsize(payloads_of(ty)[0]) <= tenum(ty).discriminant_offset);
+    assert(tsize(payloads_of(ty)[1]) <= tenum(ty).discriminant_offset);
+}
+pub proof fn lemma_eu_class(ty: Ty, off: int, k: int)
+    requires ty is ErrorUnion
+    ensures eb_class(ty, off, k) == psabi_merge(psabi_merge(eb_class(*ty->ErrorUnion_payload_ty.0, off, k), eb_class(*ty->ErrorUnion_error_ty.0, off, k)), tag_class(ty, off, k))
+{
+    reveal_with_fuel(eb_class, 2); reveal_with_fuel(eb_parts, 2);
+}
+pub proof fn lemma_merge4(a: Class, p: Class, e: Class, t: Class)
+    ensures psabi_merge(a, psabi_merge(psabi_merge(p, e), t)) == psabi_merge(psabi_merge(psabi_merge(a, p), e), t)
+{
+}
+pub proof fn lemma_opt_layout(ty: Ty)
+    requires ty is Optional, lk(ty)
+    ensures
+        lk(*ty->Optional_sub_ty.0),
+        has_enum_layout(ty) ==> tsize(*ty->Optional_sub_ty.0) <= tenum(ty).discriminant_offset && tenum(ty).discriminant_offset + 1 == tsize(ty),
+{
+    reveal_with_fuel(lk, 2); reveal_with_fuel(lk_parts, 2);
+    if has_enum_layout(ty) {
+        assert(entry_ok(ty));
+        assert(size_ok(ty, tsize(ty)));
+        assert(enum_layout_ok(ty, tenum(ty)));
+        assert(payloads_of(ty).len() == 1 && payloads_of(ty)[0] == *ty->Optional_sub_ty.0);
+        assert(tsize(payloads_of(ty)[0]) <= tenum(ty).discriminant_offset);
+    }
+}
+pub proof fn lemma_opt_class(ty: Ty, off: int, k: int)
+    requires ty is Optional
+    ensures
+        has_enum_layout(ty) ==> eb_class(ty, off, k) == psabi_merge(eb_class(*ty->Optional_sub_ty.0, off, k), tag_class(ty, off, k)),
+        !has_enum_layout(ty) ==> eb_class(ty, off, k) == leaf(Class::Int, off, tsize(ty), k),
+{
+    reveal_with_fuel(eb_class, 2); reveal_with_fuel(eb_parts, 2);
+}
+/// the pointer-shaped optional: an INTEGER scalar
+pub proof fn lemma_cls_optional_ptr(ty: Ty, off: int)
+    requires ty is Optional, !has_enum_layout(ty)
+    ensures forall|k: int| #[trigger] eb_class(ty, off, k) == leaf(Class::Int, off, tsize(ty), k)
+{
+    assert forall|k: int| #[trigger] eb_class(ty, off, k) == leaf(Class::Int, off, tsize(ty), k) by { lemma_opt_class(ty, off, k); }
+}
+pub open spec fn classified_variant(ty: Ty) -> bool {
+    int_scalar(ty) || ty is Float || arr_parts(ty) is Some || ty is Slice || ty is RawSlice || ty is Any || wrapped(ty) is Some
+    || is_struct_ty(ty) || ty is Enum || ty is ErrorUnion || ty is Optional
+}
+pub proof fn lemma_cls_other(ty: Ty, off: int)
+    requires !classified_variant(ty)
+    ensures forall|k: int| #[trigger] eb_class(ty, off, k) == Class::NoClass
+{ reveal_with_fuel(eb_class, 2); reveal_with_fuel(eb_parts, 2); }
+
+/// storing the tag's class: `c3` is `c2` with INTEGER merged into the eightbyte of the tag byte
+pub proof fn lemma_tag_store(c2: Seq<Class>, c3: Seq<Class>, ty: Ty, off: int, j: int)
+    requires c2.len() == 8, c3.len() == 8, 0 <= j < 8, j == (off + tenum(ty).discriminant_offset) / 8,
+        c3 == c2.update(j, psabi_merge(c2[j], Class::Int)),
+    ensures forall|k: int| 0 <= k < 8 ==> #[trigger] c3[k] == psabi_merge(c2[k], tag_class(ty, off, k))
+{
+}
+
+/// merging scalar classes never yields SSEUP (no vector types): by induction over the type
+pub proof fn lemma_eb_scalar(ty: Ty, off: int, k: int)
+    ensures scalar_class(eb_class(ty, off, k))
+    decreases ty, 1nat, 0nat
+{
+    reveal_with_fuel(eb_class, 2); reveal_with_fuel(eb_parts, 2);
+    if !int_scalar(ty) {
+        match ty {
+            Ty::ConcreteArray { size, sub_ty } => { lemma_parts_scalar(ty, size as nat, off, k); }
+            Ty::AnonArray { size, sub_ty } => { lemma_parts_scalar(ty, size as nat, off, k); }
+            Ty::Distinct { sub_ty, .. } => { lemma_eb_scalar(*sub_ty.0, off, k); }
+            Ty::EnumVariant { sub_ty, .. } => { lemma_eb_scalar(*sub_ty.0, off, k); }
+            Ty::ConcreteStruct { members, .. } => { lemma_parts_scalar(ty, members@.len(), off, k); }
+            Ty::AnonStruct { members } => { lemma_parts_scalar(ty, members@.len(), off, k); }
+            Ty::Enum { variants, .. } => { lemma_parts_scalar(ty, variants@.len(), off, k); }
+            Ty::ErrorUnion { error_ty, payload_ty } => { lemma_eb_scalar(*payload_ty.0, off, k); lemma_eb_scalar(*error_ty.0, off, k); }
+            Ty::Optional { sub_ty } => { lemma_eb_scalar(*sub_ty.0, off, k); }
+            _ => {}
+        }
+    }
+}
+pub proof fn lemma_parts_scalar(ty: Ty, n: nat, off: int, k: int)
+    ensures scalar_class(eb_parts(ty, n, off, k))
+    decreases ty, 0nat, n
+{
+    reveal_with_fuel(eb_class, 2); reveal_with_fuel(eb_parts, 2);
+    if n > 0 {
+        lemma_parts_scalar(ty, (n - 1) as nat, off, k);
+        match ty {
+            Ty::ConcreteArray { size, sub_ty } => { lemma_eb_scalar(*sub_ty.0, off + (n - 1) * stride_of(*sub_ty.0), k); }
+            Ty::AnonArray { size, sub_ty } => { lemma_eb_scalar(*sub_ty.0, off + (n - 1) * stride_of(*sub_ty.0), k); }
+            Ty::ConcreteStruct { members, .. } => { if n - 1 < members@.len() { lemma_eb_scalar(*members@[n - 1].ty.0, off + tstruct(ty).offsets[n - 1], k); } }
+            Ty::AnonStruct { members } => { if n - 1 < members@.len() { lemma_eb_scalar(*members@[n - 1].ty.0, off + tstruct(ty).offsets[n - 1], k); } }
+            Ty::Enum { variants, .. } => { if n - 1 < variants@.len() { lemma_eb_scalar(*variants@[n - 1].0, off, k); } }
+            _ => {}
+        }
+    }
+}
